@@ -254,7 +254,8 @@ class CGraph:
 
         utpm_x_list = []
         for xi in x_list:
-            element = numpy.asarray(xi).reshape((1,1) + numpy.shape(xi))
+            # a copy: a program that assigns into its argument must not change the caller's array
+            element = numpy.array(xi).reshape((1,1) + numpy.shape(xi))
             if numpy.issubdtype(element.dtype, numpy.integer):
                 element = element.astype(float)
             utpm_x_list.append(algopy.UTPM(element))
